@@ -177,6 +177,7 @@ Proof.
        | context [if locked ?mb ?ss then _ else _] => destruct (locked mb ss) eqn:Elk; [discriminate|]; apply locked_false in Elk
        | context [if ?b then _ else _] => destruct b eqn:?
        | context [match e_all ?e with _ => _ end] => destruct (e_all e) eqn:?
+       | context [match ent_take ?g ?l with _ => _ end] => destruct (ent_take g l) as [[? ?]|] eqn:?
        | context [match box_remove ?a ?b with _ => _ end] => destruct (box_remove a b) as [? [?|]] eqn:?
        end; try discriminate.
   all: inv_ok H.
@@ -243,6 +244,7 @@ Proof.
        | context [if locked ?mb ?ss then _ else _] => destruct (locked mb ss) eqn:Elk; [discriminate|]
        | context [if ?b then _ else _] => destruct b eqn:?
        | context [match e_all ?e with _ => _ end] => destruct (e_all e) eqn:?
+       | context [match ent_take ?g ?l with _ => _ end] => destruct (ent_take g l) as [[? ?]|] eqn:?
        | context [match box_remove ?a ?b with _ => _ end] => destruct (box_remove a b) as [? [?|]] eqn:?
        end; try discriminate.
   all: inv_ok H.
@@ -301,6 +303,7 @@ Proof.
       repeat match type of H with
        | context [if ?b then _ else _] => destruct b eqn:?
        | context [match e_all ?e with _ => _ end] => destruct (e_all e) eqn:?
+       | context [match ent_take ?g ?l with _ => _ end] => destruct (ent_take g l) as [[? ?]|] eqn:?
        | context [match box_remove ?a ?b with _ => _ end] => destruct (box_remove a b) as [? [?|]] eqn:?
        end; try discriminate; inv_ok H; autorewrite with sys; reflexivity. }
     congruence.
@@ -326,7 +329,7 @@ Proof.
         + exists E. unfold can_move; cbn [step]; unfold step_enf; rewrite Emax, Epc, Elk.
           destruct (box_remove _ _) as [? [?|]]; exact I.
       - exists E. unfold can_move; cbn [step]; unfold step_enf; rewrite Emax, Epc.
-        destruct (tag_mem _ _); exact I. }
+        destruct (tag_mem _ _); [destruct (ent_take _ _) as [[? ?]|]|]; exact I. }
   destruct (forallb thr_done (s_thr s)) eqn:Ed.
   { left. unfold all_done. now rewrite Ed, Eidle. }
   right. destruct (thr_done_all _ Ed) as (t & p & Hn & Hp).
